@@ -17,6 +17,10 @@ int __real_dup(int);
 int __real_getsockopt(int, int, int, void *, socklen_t *);
 }
 
+#include <cstdio>
+#include <cstdlib>
+static int dbg() { static int d = -1; if (d < 0) d = getenv("SIMIO_DEBUG") ? 1 : 0; return d; }
+#define DBG(...) do { if (dbg()) fprintf(stderr, __VA_ARGS__); } while (0)
 namespace simio {
 State S;
 void reset() { S = State(); }
@@ -72,6 +76,7 @@ ssize_t __wrap_writev(int fd, const struct iovec *iov, int cnt) {
 	if (fd < 1000) return __real_writev(fd, iov, cnt);
 	Fd *f = get(fd);
 	++S.writev_calls;
+	DBG("writev fd=%d f=%p open=%d wchan=%d\n", fd, (void *) f, f ? f->open : -1, f ? f->wchan : -9);
 	if (!f || !f->open || f->wchan < 0) { errno = EBADF; return -1; }
 	Chan *c = chan(f->wchan);
 	int fault = f->wfault; int64_t fa = f->wfa; f->wfault = 0;
@@ -141,6 +146,7 @@ int __wrap_fcntl(int fd, int cmd, ...) {
 int __wrap_close(int fd) {
 	if (fd < 1000) return __real_close(fd);
 	Fd *f = get(fd);
+	DBG("close fd=%d\n", fd);
 	if (!f) { errno = EBADF; return -1; }
 	++f->closes;
 	if (!f->open) { errno = EBADF; return -1; }
